@@ -19,7 +19,7 @@ func C06(c *core.Ctx) {
 	c.Explanation = engineAText +
 		"C06 family: a string property in 6 positions (required, optional, nullable in both type-list orders, behind #/$defs and #/definitions references) × all 8 subsets of " +
 		"{minLength, maxLength, pattern}, JSON and YAML methods. Additional clauses: the length measure must count characters (A-REJ:chars); emitted code may not discard the matcher's error (A-ERRDROP2); " +
-		"no schema text is used as a printf format (A-EVENT:symbolic-format). Not decided: regexp dialect differences."
+		"no schema text is used as a printf format (A-EVENT:symbolic-format); with a default on the same property the default assignment precedes every length/pattern check in both methods (A-DEF). Not decided: regexp dialect differences."
 	rules := ruleSet("A-REJ", "A-NOEXTRA", "A-NILG", "A-ERRDROP2", "A-EVENT")
 	cfg := gen.DefaultConfig()
 	for _, pos := range positions {
@@ -27,6 +27,17 @@ func C06(c *core.Ctx) {
 			sp := &fam.Spec{Kind: "string", Kw: kws}
 			mb := member{name: "string " + pos + " " + sp.String(), cfg: cfg, root: place(sp, pos)}
 			runMember(c, mb, rules, 16, func(w *fam.World, fm *fam.FileModel) []fam.Issue {
+				return w.CheckObject(fm, w.Spec, "", "root")
+			})
+		}
+	}
+	// a defaulted string is a plain value without nil guard: "absent or null is not checked" holds only because the default is in
+	// place before the length / pattern checks run (A-DEF order clause), in the JSON and in the YAML method
+	for _, pos := range []string{"required", "optional", "nullable-optional"} {
+		for _, kws := range [][]string{{"minLength"}, {"pattern"}, {"minLength", "maxLength", "pattern"}} {
+			sp := &fam.Spec{Kind: "string", Kw: kws, Default: "scalar"}
+			mb := member{name: "defaulted string " + pos + " " + sp.String(), cfg: cfg, root: place(sp, pos)}
+			runMember(c, mb, ruleSet("A-REJ", "A-NOEXTRA", "A-NILG", "A-DEF"), 16, func(w *fam.World, fm *fam.FileModel) []fam.Issue {
 				return w.CheckObject(fm, w.Spec, "", "root")
 			})
 		}
